@@ -27,7 +27,7 @@ for d in sorted(glob.glob(os.path.join(VERIF, "seeded", "C*-*m*"))):
             suite = open(os.path.join(d, f)).read().strip().split("\n")[-1]
     meta = {
         "property": pid, "change": m,
-        "summary": agent.get("summary"), "needs_to_manifest": agent.get("needs"), "files": agent.get("files"),
+        "summary": agent.get("summary"), "needs_to_manifest": (agent.get("needs") or agent.get("needs_to_manifest")), "files": agent.get("files"),
         "what_was_run": {
             "demo_on_clean_tree_exit": ran.get("demo_clean_exit"), "demo_with_change_exit": ran.get("demo_mutated_exit"),
             "test_suite_with_change": suite or ("as reported by the seeding run: " + str(agent.get("suite"))),
